@@ -522,7 +522,7 @@ DIVERSITY = {
     "sizes": "n = 1..6 (rounds r = 1, 1, 2, 3, 4, 6)",
 }
 
-HOWS = ("ctor", "ctor-label", "copy-before-def", "def-then-copy", "append-twice", "static-none", "static-ints",
+HOWS = ("ctor", "ctor-label", "copy-before-def", "buffer-overwritten", "def-then-copy", "append-twice", "static-none", "static-ints",
         "static-qubit-objs", "static-register")
 # flag-form pass: BlackBoxInitialize(params, label=None) / initialize(q_circuit, state, qubits=None) have NO boolean option
 # and no numeric option; the arguments with a valid falsy value are the label ('' must be kept, None = default 'BBSP', both
@@ -567,6 +567,23 @@ def build_how(raw, how, wires=None):
         if dump(d1) != dump(d2):
             raise AssertionError("copy() taken before the definition is built gives a different definition than the original")
         return d2, host, list(range(w))
+    if how == "buffer-overwritten":           # the caller's buffer is refilled after construction, BEFORE the definition is built
+        g = BlackBoxInitialize(raw)
+        saved = None
+        try:
+            if isinstance(raw, np.ndarray) and raw.flags.writeable:
+                saved = raw.copy()
+                raw[:] = np.roll(saved, 1)[::1] * (1j if np.iscomplexobj(raw) else -1)
+            elif isinstance(raw, list):
+                saved = list(raw)
+                raw[:] = [(-x) for x in saved[1:] + saved[:1]]
+            d = g.definition
+        finally:
+            if saved is not None:
+                raw[:] = saved
+        host = QuantumCircuit(w)
+        host.append(g, list(range(w)))
+        return d, host, list(range(w))
     if how == "def-then-copy":                # definition built, then copied, copy used
         g = BlackBoxInitialize(raw)
         _ = g.definition
